@@ -37,7 +37,7 @@ W(p) == RandomElement({j \in 1..100 : ncommits >= 0}) <= p
 Silent(rec) == hist' = Hist(rec) /\
                UNCHANGED <<roots, nrc, nkids, xs, covlT, covlX, queue, inflight, toDeref, locked, snap,
                            nextId, nextCid, ncommits, nlocks, ideal, idealX, conflictT, conflictX, corrupt,
-                           hdrMark, leaked, ncrash>>
+                           hdrMark, leaked, ncrash, wpend>>
 Pipe == inflight = <<>> /\ \E w \in Pipes : Silent([a |-> "Pipe", w |-> w])
 Restart == Quiescent /\ locked = {} /\ Silent([a |-> "Restart"])
 RejectWide == \E k \in TKeys : ideal[k].rc = 0 /\ k \notin locked /\ VisibleRoot(k).rc = 0 /\
